@@ -210,6 +210,16 @@ def run(rep, info, model, tier, seed):
                     if server_close and k <= 6:
                         sc["_server_close_after_client"] = [[] if server_close[0] is None else [server_close[0]], server_close[1]]
                     small.append(sc)
+    # the server never answers the client's Close: the handshake is cut short by the close timeout, counted from the moment
+    # the Close frame went out -- also when that moment is session time 0 (close() at Connected or at Ready)
+    for k in (1, 2, 3, 4):
+        for ct in (10240, 30720):
+            for tail in ([("eof", 10)], [("data", 10, E(1, b"late")), ("eof", 10)]):
+                steps = [("data", 0, scen.HANDSHAKE + E(1, b"one"))] + [("timeout", 5120)] * 8 + tail
+                sc = dict(cfg=simnet.default_cfg(close_timeout=ct), steps=steps, app={k: [("close", 1000, b"bye")]}, keys=[b"\x01\x01\x01\x01"] * 8, key16=scen.KEY16)
+                sc["_eof_after"] = True
+                sc["_mode"] = "unanswered"
+                small.append(sc)
     # what an EARLIER connection of the same process received must not matter: a Close frame whose reason stops inside a
     # multi-byte character, is not UTF-8, is one byte long or carries a reserved code fails THAT connection only
     poisons = [ref6455.close_payload(1000, b"\xe2\x82"), ref6455.close_payload(1000, b"ok\xf0\x9f\x98"), ref6455.close_payload(1001, b"\xc3"),
@@ -234,7 +244,7 @@ def run(rep, info, model, tier, seed):
     fam.run_family(rep, model, "C08:close-histories", scs, close_checks, project=lambda t: t,
                    rule="random histories: data/control before and between, application close() at any event (incl. Connected, Ready), server Close with every valid code / empty payload / 123-byte reason, application sends at any event; oracle judges the wire (decoded by the harness' own RFC 6455 decoder) and the events")
     fam.run_family(rep, model, "C08:small-orders", small, close_checks, project=lambda t: t,
-                   rule="all combinations: application close at event 0..6 x server close {absent, 1000, empty, 4999+max reason} x application send at event {none,2..5} x close arguments")
+                   rule="all combinations: application close at event 0..6 x server close {absent, 1000, empty, 4999+max reason} x application send at event {none,2..5} x close arguments; and a client Close at Connected / Ready / Poll / a message that the server never answers, with a close timeout")
     fam.run_family(rep, model, "C08:after-a-bad-close", after, close_checks, project=lambda t: t,
                    rule="the same closing handshakes (server first, client first at Ready or later; non-empty reasons) on a connection made AFTER another connection of the same process received a malformed Close (reason cut inside a 2-, 3- or 4-byte character, invalid byte, one-byte payload, reserved code): the earlier connection must not influence this one")
     rep.exhaustive["C08 small orders"] = True
